@@ -98,6 +98,7 @@ type Drv struct {
 	viaNewCtr       int
 	triedStructural bool
 	leaked          bool
+	reusedFilter    bool
 	by              *bystander
 	NoBystander     bool
 	curExch         typed.TExch // exchange object of the running op
@@ -113,6 +114,8 @@ type Stats struct {
 	Paths            [NPaths]int64
 	Panics           int64
 	BystanderOps     int64
+	FilterReuse      int64
+	NestedRows       int64
 	NestedSameObject int64 // rejected calls made from a callback through the object the running op was called on
 	ExpPanics        int64
 	Sweeps           int64
